@@ -733,11 +733,14 @@ void File::uncompressedFile2ReadWriteQueue() {
         m_uncompressedFile.seekg(tmp);
     }
 
+    /* statistics: decide before the hand-over, the application owns the object afterwards */
+    const bool countObject = (obj->objectType != ObjectType::Unknown115);
+
     /* push data into readWriteQueue */
     m_readWriteQueue.write(obj);
 
     /* statistics */
-    if (obj->objectType != ObjectType::Unknown115)
+    if (countObject)
         currentObjectCount++;
 
     /* drop old data */
